@@ -277,7 +277,7 @@ pub fn run(tier: Tier) -> i32 {
     let mut ctx = Ctx::new("C05", tier);
     let pre = preflight();
     let seed = ctx.seed;
-    let per = tier.n(1000, 32_000);
+    let per = tier.n(5000, 32_000);
     let mut tally = ctx.par(32, |s| shard(seed, s, per));
     let c = ctx.par(8, |s| containers(seed, s, tier.n(500, 20_000)));
     tally.merge(c);
